@@ -57,7 +57,7 @@ func NewSegmentPadding(start, stop, n int) Segment {
 func (t *Segment) Value(buffer []byte) []byte {
 	var result []byte
 	if t.Padding == 0 {
-		result = buffer[t.Start:t.Stop]
+		result = buffer[t.Start:t.Stop:t.Stop]
 	} else {
 		result = make([]byte, 0, t.Padding+t.Stop-t.Start+1)
 		result = append(result, bytes.Repeat(space, t.Padding)...)
